@@ -239,6 +239,7 @@ func checkC20(ctx *Ctx) {
 	replayBash(ctx, cli, root)
 	replayBashFanIn(ctx, cli, root)
 	replayBashJoin(ctx, cli, root)
+	reportTagged(ctx, cli, root)
 }
 
 func stripIDs(ids []string) []string {
@@ -426,6 +427,65 @@ func replayBashJoin(ctx *Ctx, cli, root string) {
 	} else {
 		ctx.Res.Violate(Violation{What: "audit2html failed: " + tail(out), Class: "c20.cli-failed", Witness: "join"})
 	}
+}
+
+// a real workflow with differently tagged branches merged by one task: the report lists every task with the tags it
+// ran with — its own, not those of its descendants
+func reportTagged(ctx *Ctx, cli, root string) {
+	dir := filepath.Join(root, "tagged")
+	os.MkdirAll(dir, 0755)
+	for p, c := range map[string]string{"a.txt": "alpha\n", "b.txt": "beta\n"} {
+		ioutil.WriteFile(filepath.Join(dir, p), []byte(c), 0644)
+	}
+	d := &Desc{Name: "tagged", Max: 2, Nodes: []Node{
+		{Name: "sa", Kind: "filesource", Paths: []string{"a.txt"}}, {Name: "sb", Kind: "filesource", Paths: []string{"b.txt"}},
+		{Name: "ta", Kind: "maptotags", Arg: "sample", Values: []string{"a.txt=A"}}, {Name: "tb", Kind: "maptotags", Arg: "batch", Values: []string{"b.txt=B"}},
+		{Name: "pa", Kind: "proc", Cmd: "cat {i:in} > {o:out}", Outs: map[string]string{"out": "{i:in}.pa"}},
+		{Name: "pb", Kind: "proc", Cmd: "cat {i:in} > {o:out}", Outs: map[string]string{"out": "{i:in}.pb"}},
+		{Name: "merge", Kind: "proc", Cmd: "cat {i:x} {i:y} > {o:out}", Outs: map[string]string{"out": "merged3.txt"}}},
+		Edges: []Edge{{From: "sa.out", To: "ta.in"}, {From: "sb.out", To: "tb.in"}, {From: "ta.out", To: "pa.in"}, {From: "tb.out", To: "pb.in"},
+			{From: "pa.out", To: "merge.x"}, {From: "pb.out", To: "merge.y"}}}
+	rr := RunWorkflow(d, RunOpts{Dir: dir})
+	ctx.Res.Eval("report-tagged", true, "report of a workflow with differently tagged branches")
+	ctx.Res.Count("tagged-report")
+	if rr.Exit != 0 {
+		ctx.Res.Disagree(Violation{What: "tagged workflow failed: " + tail(rr.Stderr), Witness: "tagged"})
+		return
+	}
+	if out, err := runCLI(cli, dir, "audit2html", "merged3.txt.audit.json"); err != nil {
+		ctx.Res.Violate(Violation{What: "audit2html failed: " + tail(out), Class: "c20.cli-failed", Witness: "tagged"})
+		return
+	}
+	html, _ := ioutil.ReadFile(filepath.Join(dir, "merged3.txt.audit.html"))
+	want := map[string]string{"pa": "sample: A", "pb": "batch: B"}
+	seen := map[string]int{}
+	for _, blk := range strings.Split(string(html), "<table>")[1:] {
+		name := between(blk, "<strong>", "</strong>")
+		tags := strings.Split(between(blk, "<th>Tags:</th><td><pre>", "</pre>"), ", ")
+		sort.Strings(tags)
+		seen[name]++
+		if w, ok := want[name]; ok && strings.Join(tags, ", ") != w {
+			ctx.Res.Violate(Violation{What: fmt.Sprintf("the report lists task %s with the tags [%s]; it ran with [%s]", name, strings.Join(tags, ", "), w), Class: "c20.report-tags", Witness: "tagged"})
+		}
+	}
+	for _, n := range []string{"pa", "pb", "merge"} {
+		if seen[n] != 1 {
+			ctx.Res.Violate(Violation{What: fmt.Sprintf("the report lists task %s %d times", n, seen[n]), Class: "c20.report-incomplete", Witness: "tagged"})
+		}
+	}
+}
+
+func between(s, a, b string) string {
+	i := strings.Index(s, a)
+	if i < 0 {
+		return ""
+	}
+	s = s[i+len(a):]
+	j := strings.Index(s, b)
+	if j < 0 {
+		return ""
+	}
+	return s[:j]
 }
 
 func init() { checks["C20"] = checkC20 }
